@@ -1,15 +1,19 @@
 #!/bin/bash
-# usage: tools/try_seeded.sh <seed-id> <prop> [<prop>...]   (quick tier; VERIF_TIER=thorough for thorough)
-# Applies seeded/<id>/patch.diff to /repo, runs the checks, reverts.
+# usage: tools/try_seeded.sh <seed-id> <prop> [<prop>...]   (VERIF_TIER=thorough for thorough)
+# Applies seeded/<id>/patch.diff in a scratch worktree of /repo (never /repo
+# itself), runs the checks against it with evidence/replays redirected, and
+# removes the worktree.
 sid=$1; shift
 tier=${VERIF_TIER:-quick}
+wt=/tmp/wt/try-$sid-$$
+out=/dev/shm/verif-try-$$
 cd /verif
-git -C /repo diff --quiet || { echo "/repo dirty"; exit 2; }
-git -C /repo apply /verif/seeded/$sid/patch.diff || exit 2
+git -C /repo worktree add -q "$wt" HEAD || exit 2
+trap 'git -C /repo worktree remove --force "$wt" >/dev/null 2>&1; rm -rf "$out"' EXIT
+git -C "$wt" apply /verif/seeded/$sid/patch.diff || exit 2
 for p in "$@"; do
-  out=$(./check $p $tier 2>&1); rc=$?
-  echo "== $sid vs $p ($tier): exit=$rc $(echo "$out" | grep -c '^VIOLATION') violation line(s)"
-  echo "$out" | grep -A1 '^VIOLATION' | head -6 | cut -c1-400
-  [ $rc -ge 2 ] && echo "$out" | tail -15
+  o=$(VERIF_REPO=$wt VERIF_OUT=$out ./check $p $tier 2>&1); rc=$?
+  echo "== $sid vs $p ($tier): exit=$rc $(echo "$o" | grep -c '^VIOLATION') violation line(s)"
+  echo "$o" | grep -A1 '^VIOLATION' | head -6 | cut -c1-400
+  [ $rc -ge 2 ] && echo "$o" | tail -15
 done
-git -C /repo checkout -- .
